@@ -5,12 +5,12 @@ CONSTS = {"CertKeys": '{"k1","k2","k3"}'}
 GEN_CFGS = {}
 
 
-def G(tag, classes, depth, num, props, nidl=False, base=True, sw=False, regw=False, unix=False, nide=False, lstate=False, life=0, so=False, twoh=False, lskew=False):
+def G(tag, classes, depth, num, props, nidl=False, base=True, sw=False, regw=False, unix=False, nide=False, lstate=False, life=0, so=False, twoh=False, lskew=False, llog=False):
     name = "HandshakeGen_%s.cfg" % tag
     GEN_CFGS[name] = ("SPECIFICATION Spec\nCONSTANTS\n  CertKeys = {\"k1\",\"k2\",\"k3\"}\n  Depth = %d\n  Classes = {%s}\n  CfgNidl = %s\n  CfgBase = %s\nCHECK_DEADLOCK FALSE\n"
                       % (depth, ",".join('"%s"' % c for c in classes), "TRUE" if nidl else "FALSE", "TRUE" if base else "FALSE"))
     return dict(module="HandshakeGen.tla", cfg=name, depth=depth, num=num, props=props, tag=tag,
-                beh_cfg=dict(nidl=nidl, nide=nide, lstate=lstate, lskew=lskew, base=base, sw=sw, regw=regw, unix=unix, lifeSec=life, so=so, twoh=twoh, certKeys=["k1", "k2", "k3"]))
+                beh_cfg=dict(nidl=nidl, nide=nide, lstate=lstate, lskew=lskew, llog=llog, base=base, sw=sw, regw=regw, unix=unix, lifeSec=life, so=so, twoh=twoh, certKeys=["k1", "k2", "k3"]))
 
 
 def materialise(scr):
@@ -54,8 +54,12 @@ GENS = [
     G("c16b", ["Enroll", "Dial", "ConnectHonest", "ConnectNear"], 9, dict(quick=20, thorough=400), ["C16"], nidl=True, sw=True),
     # the listener's own options carry a state value: no connection may report it as the client's
     G("c16c", ["Enroll", "Dial", "Dial", "ConnectHonest", "ConnectNear"], 9, dict(quick=20, thorough=400), ["C16"], lstate=True),
+    # the listener's own options carry a debug-level logger: what connections report is unchanged
+    G("c16d", ["Enroll", "Dial", "Dial", "ConnectHonest", "ConnectNear"], 8, dict(quick=12, thorough=300), ["C16", "C02"], llog=True),
     G("c14a", ["Enroll", "Malformed", "Malformed", "Malformed", "Dial"], 12, dict(quick=40, thorough=700), ["C14"]),
     G("c14c", ["Enroll", "Remove", "Reinit", "ConnectNear", "ConnectRand", "ConnectMixed", "Dial"], 12, dict(quick=25, thorough=500), ["C14"], nidl=True),
+    # hostile handshakes between the steps of a NEW node's registration (its fetch handshake comes after them)
+    G("c14d", ["NewNode", "AuthorizePending", "Malformed", "Malformed", "DialPending", "DialPending", "Enroll"], 10, dict(quick=20, thorough=400), ["C14"]),
     G("c14b", ["Enroll", "Malformed", "Malformed", "Dial", "ConnectOther"], 12, dict(quick=20, thorough=400), ["C14"], regw=True, sw=True),
 ]
 
